@@ -52,16 +52,20 @@ func runC17Sio(c *sim.Ctx, t *testing.T) {
 	for r := range plans {
 		ids := []string{fmt.Sprintf("a%d", r), fmt.Sprintf("b%d", r)}
 		pending := map[string]bool{} // ids this requester may not re-make yet
+		remade := map[string]bool{}
 		nops := 1 + c.Intn(5, "nops")
 		for i := 0; i < nops; i++ {
 			id := ids[c.Intn(len(ids), "id")]
 			switch k := c.Intn(6, "op"); {
-			case k <= 2 && !pending[id]:
+			case k <= 2 && !pending[id] && !remade[id]:
 				op := &vfTmOp{kind: "make", id: id, d: vfDelays[c.Intn(len(vfDelays), "d")], payload: newPayload()}
 				byPayload[op.payload] = op
 				if c.Chance(1, 3, "remake") {
 					op.remake = &vfTmOp{kind: "make", id: id, d: vfDelays[c.Intn(3, "rd")], payload: newPayload()}
 					byPayload[op.remake.payload] = op.remake
+					// the handler will re-create a timer under this id at some point: the
+					// requester must not make one itself ("make while pending" is not asserted for sio)
+					remade[id] = true
 				}
 				pending[id] = true
 				plans[r] = append(plans[r], op)
@@ -106,16 +110,19 @@ func runC17Sio(c *sim.Ctx, t *testing.T) {
 		}
 		s.Go("loop", func(tk *sim.Task) { crew.Loop(ctx) })
 		s.Go("consumer", func(tk *sim.Task) {
+			nres := 0
 			for {
 				sim.Yield("h#consume")
 				select {
 				case <-ctx.Done():
 					return
 				case r := <-cp.out:
-					sim.Yield("h#consumed") // the sender woke too: let the scheduler order us
+					nres++
+					lg.Add(sim.Ev{Kind: "recv", N: int64(nres)}) // the loop parks right after its send
+					sim.Yield("h#consumed")                       // the sender woke too: let the scheduler order us
 					// what any coupling does with a result: render it
 					js, err := json.Marshal(r)
-					lg.Add(sim.Ev{Kind: "result", Val: string(js), Err: vfErr(err)})
+					lg.Add(sim.Ev{Kind: "result", N: int64(nres), Val: string(js), Err: vfErr(err)})
 				}
 			}
 		})
@@ -192,6 +199,8 @@ func runC17Sio(c *sim.Ctx, t *testing.T) {
 	reqs := map[string]*reqInfo{}
 	var hist []sim.Ev
 	curReq := ""
+	reqOf := map[int64]string{}
+	recvSeq := map[int64]int{}
 	prevResult := -1
 	seenLog := 0
 	fired := map[string]bool{}
@@ -203,7 +212,15 @@ func runC17Sio(c *sim.Ctx, t *testing.T) {
 			reqs[e.Err] = &reqInfo{"cancel", e.Id, "", 0, e}
 		case "proc":
 			curReq = e.Err
+		case "recv":
+			// the loop handles one message at a time: this result belongs to the
+			// request unwrapped since the previous one, or to a timer's message
+			reqOf[e.N] = curReq
+			recvSeq[e.N] = e.Seq
+			curReq = ""
 		case "result":
+			curReq := reqOf[e.N]
+			retSeq := recvSeq[e.N]
 			if e.Err != "" {
 				c.Violate("timer:sio:result-unrenderable", "a Result could not be rendered as JSON: %s", e.Err)
 				continue
@@ -226,15 +243,15 @@ func runC17Sio(c *sim.Ctx, t *testing.T) {
 				inv := q.inv
 				if q.kind == "make" {
 					hist = append(hist, sim.Ev{Seq: inv.Seq, Task: curReq, Kind: "add.inv", Id: q.id, Val: q.payload, N: int64(q.d), At: inv.At})
-					hist = append(hist, sim.Ev{Seq: e.Seq, Task: curReq, Kind: "add.ret", Id: q.id, Val: q.payload, At: e.At})
+					hist = append(hist, sim.Ev{Seq: retSeq, Task: curReq, Kind: "add.ret", Id: q.id, Val: q.payload, At: e.At})
 				} else {
 					hist = append(hist, sim.Ev{Seq: inv.Seq, Task: curReq, Kind: "rem.inv", Id: q.id, At: inv.At})
-					hist = append(hist, sim.Ev{Seq: e.Seq, Task: curReq, Kind: "rem.ret", Id: q.id, Err: "?", At: e.At})
+					hist = append(hist, sim.Ev{Seq: retSeq, Task: curReq, Kind: "rem.ret", Id: q.id, Err: "?", At: e.At})
 				}
 				delete(reqs, curReq)
 			}
-			curReq = ""
 			// firings: new entries in the handler machine's log
+			firedAt := map[string]time.Duration{}
 			if h, ok := r.Changed["h"]; ok && h.State != nil {
 				lgEntries, _ := h.State.Bs["log"].([]interface{})
 				for _, x := range lgEntries[vfMin(seenLog, len(lgEntries)):] {
@@ -246,7 +263,8 @@ func runC17Sio(c *sim.Ctx, t *testing.T) {
 						c.Violate("timer:sio:fire:twice", "the message of timer payload %s was delivered twice", p)
 					}
 					fired[p] = true
-					hist = append(hist, sim.Ev{Seq: e.Seq, Task: "fire-" + p, Kind: "fire", Val: p, At: fireAt})
+					firedAt[p] = fireAt
+					hist = append(hist, sim.Ev{Seq: retSeq, Task: "fire-" + p, Kind: "fire", Val: p, At: fireAt})
 				}
 				seenLog = len(lgEntries)
 			}
@@ -260,8 +278,17 @@ func runC17Sio(c *sim.Ctx, t *testing.T) {
 							continue
 						}
 						task := "handler-" + payload
-						hist = append(hist, sim.Ev{Seq: startSeq, Task: task, Kind: "add.inv", Id: op.id, Val: payload, N: int64(op.d), At: e.At - time.Millisecond*0})
-						hist = append(hist, sim.Ev{Seq: e.Seq, Task: task, Kind: "add.ret", Id: op.id, Val: payload, At: e.At})
+						// the handler ran when its own message fired: that is when this request was issued
+						invAt := e.At
+						for pp, pop := range byPayload {
+							if pop.remake == op {
+								if at, ok := firedAt[pp]; ok {
+									invAt = at
+								}
+							}
+						}
+						hist = append(hist, sim.Ev{Seq: startSeq, Task: task, Kind: "add.inv", Id: op.id, Val: payload, N: int64(op.d), At: invAt})
+						hist = append(hist, sim.Ev{Seq: retSeq, Task: task, Kind: "add.ret", Id: op.id, Val: payload, At: e.At})
 						c.Count("handler_remakes")
 					}
 				}
@@ -278,7 +305,7 @@ func runC17Sio(c *sim.Ctx, t *testing.T) {
 				hist = append(hist, sim.Ev{Seq: startSeq, Task: fmt.Sprintf("obs-%d", e.Seq), Kind: "obs.inv", At: e.At})
 				hist = append(hist, sim.Ev{Seq: e.Seq, Task: fmt.Sprintf("obs-%d", e.Seq), Kind: "obs.ret", Val: strings.Join(ids, ","), At: e.At})
 			}
-			prevResult = e.Seq
+			prevResult = retSeq
 		}
 	}
 	// the handler's invocation time for a re-make is the firing time of its parent
